@@ -142,7 +142,7 @@ def reset_world_caches():
         f.cache_clear()
     for name in dir(mpyc.secgroups):
         g = getattr(mpyc.secgroups, name)
-        if callable(g) and hasattr(g, 'cache_clear'):
+        if callable(g) and hasattr(g, 'cache_clear') and getattr(g, '__module__', '') == 'mpyc.secgroups':
             g.cache_clear()
     mrt.Runtime.prfs.cache_clear()
 
